@@ -578,6 +578,27 @@ func runC03(c *Ctx) {
 	for _, doc := range []string{`{"a":[1]"b":2}`, `{"a":{}"b":2}`, `{"a":[1] "b":2}`, `{"a":[1]x}`, `{"a":[1],}`, `{"a":[1]}}`, `[[1]2]`, `[{}"x"]`, `{"a":[1]:}`} {
 		c.parseLine("LO"[map[bool]int{true: 0, false: 1}[doc[0] == '[']], doc, "-")
 	}
+	// a parse result is a fresh tree: mutating an earlier result never shows in a later parse
+	c.M.Case("parse-mutate-parse")
+	for rep := 0; rep < 3; rep++ {
+		p1 := c.M.Parse('L', `[[],[ ],{},{"a":[]},"s",[[]]]`)
+		if p1 != "" {
+			c.M.Add(c.M.tokVal(c.M.L(p1).Get(0)), gvStr("filled"), gvInt(42))
+			c.M.OSet(c.M.tokVal(c.M.L(p1).Get(2)), gvStr("k"), gvInt(1))
+			c.M.SetTF(p1, "#3.a#0", gvInt(7))
+			c.M.SetTF(p1, "#5#0#0", gvInt(8))
+		}
+		c.M.Parse('L', `[[],[ ],{},{"a":[]},"s",[[]]]`)
+		p2 := c.M.Parse('O', `{"e":[],"o":{},"n":{"e":[]}}`)
+		if p2 != "" {
+			c.M.OSetTF(p2, ".e#0", gvInt(1))
+			c.M.OSetTF(p2, ".o.k", gvInt(1))
+			c.M.OSetTF(p2, ".n.e#1", gvInt(1))
+		}
+		c.M.Parse('O', `{"e":[],"o":{},"n":{"e":[]}}`)
+		c.parseLine('L', `[[],{}]`, "valid")
+		c.parseLine('O', `{"e":[],"o":{}}`, "valid")
+	}
 	// duplicate member names in different spellings: the LAST one wins, whatever the iteration order of the map
 	for rep := 0; rep < 12; rep++ {
 		c.parseLine('O', `{"a":1,"\u0061":2,"b":3,"\u0062":4,"\/":5,"/":6}`, "valid")
@@ -658,6 +679,20 @@ func runC04(c *Ctx) {
 			}
 			b[r.Intn(len(b))] = byte(r.Intn(256))
 			c.parseLine(root, string(b), "-")
+		}
+	}
+	// every proper prefix of String() is rejected also when the container came from the parser, a clone, a map ...
+	for _, v := range c.parsedSources() {
+		root := byte('L')
+		var text string
+		if o, ok := v.(at.Object); ok {
+			root, text = 'O', o.String()
+		} else {
+			text = v.(at.List).String()
+		}
+		c.parseLine(root, text, "-")
+		for cut := 0; cut < len(text); cut++ {
+			c.parseLine(root, text[:cut], "err")
 		}
 	}
 	// state across calls: rejected inputs with text pending, then ordinary documents; results mutated, then parsed again
@@ -1102,6 +1137,16 @@ func (d *errDoc) add(s string)  { d.toks = append(d.toks, docTok{s: s}) }
 func (d *errDoc) mark(s string) { d.toks = append(d.toks, docTok{s: s, mark: true}) }
 
 func (d *errDoc) scalar() {
+	switch d.r.Intn(9) {
+	case 7:
+		d.add("[") // an empty container: whitespace (and newlines) may stand between its brackets
+		d.add("]")
+		return
+	case 8:
+		d.add("{")
+		d.add("}")
+		return
+	}
 	switch d.r.Intn(7) {
 	case 0:
 		d.add("null")
